@@ -10,7 +10,7 @@ L_NOTE = ("Trusted: Lean kernel + {propext, Classical.choice, Quot.sound}; the h
           "layouts below 2^63 (usize wrap-around not modelled).")
 
 V_NOTE = ("Trusted: Lean kernel + standard axioms; slot-machine model of convert.rs tied to the code by channel V (every script of "
-          "length <= 5 (quick) / 6 (thorough) over 8 converter outcomes + random long scripts, four equal-layout and four "
+          "length <= 5 (quick) / 6 (thorough) over 10 converter outcomes (convert, touch / replace the previous output then convert or abandon, abandon, error, three kinds of panic) + random long scripts, four equal-layout and four "
           "unequal-layout element type pairs, zero-size elements by counts, debug and optimised builds, ledger + counting "
           "allocator + payload identity). Modelled not verified: Vec::set_len/transmute, catch_unwind; converter contract assumed.")
 
